@@ -926,6 +926,9 @@ public:
             // recomputed for the whole mesh
             compute_edge_bottom_up_incidences();
 
+            // reorder_incident_halffaces() only works on enabled incidences
+            e_bottom_up_ = true;
+
             if(f_bottom_up_) {
                 for (const auto &eh: edges()) {
                     reorder_incident_halffaces(eh);
